@@ -52,6 +52,7 @@ def generate(seed: int, tier: str, idx: int) -> dict:
     sc.pop("spell", None)
     if sc["release"].get("mult_column") is False:
         sc["release"].pop("mult_column")
+        sc["release"].pop("col_order", None)
     sc["plan"] = {"omit_ibm": s.chance(0.5)}
     return sc
 
